@@ -63,7 +63,10 @@ Definition perm_kind_to_str (k : perm_kind) : str :=
 Definition permission_from (s : str) : permission :=
   match splitn 2 sp s with
   | kinds :: rest =>
-      mkPerm (map perm_kind_of_ascii (list_ascii_of_string kinds))
+      (* kind.chars(): one entry per UTF-8 character, i.e. continuation bytes 10xxxxxx are skipped *)
+      mkPerm (map perm_kind_of_ascii
+                  (filter (fun a => let n := N_of_ascii a in negb (N.leb 128 n && N.ltb n 192))
+                          (list_ascii_of_string kinds)))
              (match rest with keys :: _ => split_char "," keys | [] => [] end)
   | [] => mkPerm [PRead] []
   end.
